@@ -253,6 +253,10 @@ def rule_word_cursor(ck, facts):
 def run(ck, facts, tier):
     rule_state_borrow(ck, facts)
     rule_word_cursor(ck, facts)
+    if "mimium_rust_template" in facts.files:
+        from ..rules import nullanswer
+
+        nullanswer.run(ck, facts, "C18.prims", "mimium_rust_template", "::call_ext")
     cg = CallGraph(facts, ["mimium_lang"])
     rule_cover(ck, facts, cg)
     ck.require("C18.prims", "mimium_rust_template" in facts.files, "anchor|template-facts", "the Rust runtime template did not compile stand-alone under the extractor (see template-build.log); its primitives cannot be compared")
